@@ -116,7 +116,11 @@ func (a *Atom) Deref(_ context.Context) (MalType, error) {
 
 func (a *Atom) LispPrint(pr_str func(MalType, bool) string) string {
 	verifhook.Point("atom.print")
-	return "«atom " + pr_str(a.Val, true) + "»"
+	// read the value like Deref does: under the read lock
+	a.Mutex.RLock()
+	val := a.Val
+	a.Mutex.RUnlock()
+	return "«atom " + pr_str(val, true) + "»"
 }
 
 // Future
